@@ -81,7 +81,7 @@ def run_contract(args):
     stats = {}
     try:
         ccfg = dict(cfg)
-        ccfg.update({k: v for k, v in c.opts.items() if k in ('max_paths', 'max_decisions', 'branch_timeout_ms', 'ob_timeout_ms')})
+        ccfg.update({k: v for k, v in c.opts.items() if k in ('max_paths', 'max_decisions', 'branch_timeout_ms', 'ob_timeout_ms', 'max_wall_s')})
         stats = explore(run, ccfg)
     except (OutOfSubset, Budget) as e:
         err = {'kind': 'undecided', 'text': '%s: %s' % (type(e).__name__, e)}
@@ -139,7 +139,8 @@ def match_known(known, prop, contract, ob, values):
 def check_property(prop, tier='quick', seed=0, only=None, verbose=False):
     t0 = time.time()
     cfg = {'tier': tier, 'seed': seed, 'branch_timeout_ms': 5000, 'ob_timeout_ms': 60000 if tier == 'quick' else 180000,
-           'cvc5_timeout_s': 60 if tier == 'quick' else 180, 'max_paths': 4000 if tier == 'quick' else 20000}
+           'cvc5_timeout_s': 60 if tier == 'quick' else 180, 'max_paths': 4000 if tier == 'quick' else 20000,
+           'max_wall_s': int(os.environ.get('VERIF_CONTRACT_WALL_S', '600' if tier == 'quick' else '3000'))}
     contracts = api.load(prop)
     if only:
         contracts = [c for c in contracts if c.name in only]
